@@ -166,6 +166,19 @@ Theorem C17_wrapper_close_code_all_sessions : forall hr c mw rt cl fl rs e w,
 Proof. exact wrapper_close_session. Qed.
 Print Assumptions C17_wrapper_close_code_all_sessions.
 
+(* The "invalid close code" fallback, for EVERY session: when the scripts returned or failed
+   with anything but an HTTP error / status, a close the wrapper sends that the server rejects
+   with an "invalid close code" error is followed by another close attempt (with the fallback
+   code), unless it already carried the fallback. *)
+Theorem C17_wrapper_retries_after_invalid_close_code : forall hr c mw rt cl fl rs e w,
+  session true hr c true mw rt cl fl = (rs, e, w) ->
+  let '(rs0, e2, w2) := scripts_end true hr c mw rt cl fl in
+  e2 <> Stuck ->
+  exists l, trace w = trace w2 ++ l
+            /\ wrapper_retry_ok fallback_ws_error_code (fst (cause_of e2)) l = true.
+Proof. exact wrapper_retry_session. Qed.
+Print Assumptions C17_wrapper_retries_after_invalid_close_code.
+
 (* the harness classifies "unrouted" / "no responder" as causes 1 / 2: the same verdict as the
    HTTPError 404 / 405 the model raises for them *)
 Theorem C17_wrapper_cause_unrouted : forall c f o s l,
